@@ -3,11 +3,18 @@
 # worktree /tmp/seed/<name>, the output dir and the prompt file /tmp/seed/<name>-prompt.txt.
 N=$1; P=$2; AVOID=$3
 mkdir -p /tmp/seed/$N-out
+[ -f /tmp/seed/PROMPT.txt ] || cp /verif/tools/seed_prompt.txt /tmp/seed/PROMPT.txt
 git -C /repo worktree add --detach /tmp/seed/$N HEAD >/dev/null 2>&1 || { echo "worktree failed"; exit 2; }
 python3 - "$N" "$P" "$AVOID" <<'PY'
 import sys
 n,p,avoid=sys.argv[1:4]
 t=open('/tmp/seed/PROMPT.txt').read()
+import json, os
+if not os.path.exists(f'/tmp/seed/{p}-prop.txt'):
+    for l in open('/verif/properties.jsonl'):
+        q = json.loads(l)
+        if q['id'].lower() == p:
+            open(f'/tmp/seed/{p}-prop.txt', 'w').write(f"{q['id']}: {q.get('title','')}\n\n{q.get('statement','')}\n")
 prop=open(f'/tmp/seed/{p}-prop.txt').read()
 t=t.replace('__WT__',f'/tmp/seed/{n}').replace('__OUT__',f'/tmp/seed/{n}-out').replace('__PROP__',prop)
 if avoid:
